@@ -51,12 +51,23 @@ func ZZ_C14_DeferredCall() {
 		Cmds: []*ast.Cmd{{Cmd: "echo got {{.P}} code={{.CODE}}"}}}
 	tf.Tasks.Set("t", t)
 	tf.Tasks.Set("callee", callee)
+	root := "t"
+	if zz.Bool("tasks_come_from_a_namespaced_include") {
+		// the deferred call names a task of its own file: it is namespaced like any other call
+		merged := ast.NewTasks()
+		if err := merged.Merge(tf.Tasks, &ast.Include{Namespace: "ns"}, nil); err != nil {
+			zz.Assert(false, "merge-must-not-fail")
+			return
+		}
+		tf.Tasks = merged
+		root = "ns:t"
+	}
 	sink := &zzLineSink{}
 	e := &Executor{Taskfile: tf, Stdout: sink, Stderr: io.Discard, Stdin: strings.NewReader(""), Silent: true, Output: output.Interleaved{}}
 	e.Logger = zzQuietLogger()
 	e.Compiler = &Compiler{Dir: "", TaskfileEnv: tf.Env, TaskfileVars: tf.Vars, Logger: e.Logger}
 	e.setupConcurrencyState()
-	err := e.Run(context.Background(), &Call{Task: "t"})
+	err := e.Run(context.Background(), &Call{Task: root})
 	zz.Assert((err != nil) == fails, "outcome-is-the-commands")
 	want := "echo got " + gv
 	if taskDefines {
